@@ -75,6 +75,12 @@ pub fn normalize_msg(m: &str) -> String {
                 out.push('#');
                 in_digits = true;
             }
+        } else if !ch.is_ascii() || ch.is_ascii_control() {
+            // data-dependent text (quoted input characters): collapse
+            if !out.ends_with('?') {
+                out.push('?');
+            }
+            in_digits = false;
         } else {
             in_digits = false;
             out.push(ch);
@@ -229,6 +235,7 @@ pub struct Ctx {
 
     stage: String,
     stage_no: u32,
+    cur_idx: u64,
     progress_fd: Option<std::fs::File>,
 
     pub evaluations: u64,
@@ -267,6 +274,7 @@ impl Ctx {
             kf: KnownFindings::load(),
             stage: String::new(),
             stage_no: 0,
+            cur_idx: 0,
             progress_fd,
             evaluations: 0,
             classes: BTreeMap::new(),
@@ -323,10 +331,18 @@ impl Ctx {
     }
 
     fn write_progress(&mut self, idx: u64) {
+        self.cur_idx = idx;
+        self.write_progress_beat(0);
+    }
+
+    /// progress record "stage idx beat": the beat changes while a long-running phase of the same
+    /// case (shrinking) is alive, so the supervisor does not take it for a stall
+    fn write_progress_beat(&mut self, beat: u64) {
+        let idx = self.cur_idx;
         if let Some(f) = self.progress_fd.as_mut() {
             use std::os::unix::fs::FileExt;
             let mut buf = [b' '; 96];
-            let s = format!("{} {}\n", self.stage, idx);
+            let s = format!("{} {} {}\n", self.stage, idx, beat);
             let n = s.len().min(95);
             buf[..n].copy_from_slice(&s.as_bytes()[..n]);
             let _ = f.write_at(&buf, 0);
@@ -517,12 +533,16 @@ impl Ctx {
         let saved = (self.evaluations, self.classes.clone(), self.nontrivial.clone(), self.samples.clone(), self.kf_hits.clone());
         let mut best = (tree.current(), first.clone());
         let mut iters = 0;
+        let t0 = std::time::Instant::now();
         if tree.simplify() {
             loop {
                 iters += 1;
-                if iters > 2000 {
+                // shrinking only affects how small the reported case is, never the verdict:
+                // bound it by iterations and by wall time, and keep the progress record alive
+                if iters > 2000 || t0.elapsed().as_secs() > 20 {
                     break;
                 }
+                self.write_progress_beat(iters);
                 let cur = tree.current();
                 let still_fails = match oracle(self, &cur) {
                     Err(f) if f.sig == first.sig => {
